@@ -32,9 +32,11 @@ def base_traces(rng, ntraces, length):
             alpha = rng.choice([F(0), F(1), F(1, 2), F(rng.randrange(0, 10 ** 6 + 1), 10 ** 6),
                                 F(rng.randrange(1, 1000), 1000)])
             trk = E(alpha=alpha)
+            comp = E(alpha=F(1, 3))
         else:
             alpha = F(0)
             trk = W()
+            comp = W()
         ev = []
         style = rng.randrange(4)
         for i in range(length):
@@ -46,6 +48,7 @@ def base_traces(rng, ntraces, length):
                 v = F(rng.choice([0, 0, 1, -1]))          # many zeros / repeats
             else:
                 v = F(10 ** 9) + rand_frac(rng, big=False)  # large offset
+            comp.update(rand_frac(rng, big=False))      # a second live tracker: objects must not share state
             pre = proj_base(trk)
             r = trk.update(v)
             e = {"v": red(v), "pre": pre, "post": proj_base(trk), "var": 0, "mean": 0,
@@ -76,6 +79,7 @@ def mv_traces(rng, ntraces, length):
         alpha = F(rng.randrange(1, 1000), 1000) if kind == "es" else F(0)
         base = E(alpha=alpha) if kind == "es" else W()
         m = MV(base)
+        comp = MV(base)
         pool = rng.sample(KEYS, rng.randrange(1, len(KEYS) + 1))
         ev = []
         for i in range(length):
@@ -86,6 +90,7 @@ def mv_traces(rng, ntraces, length):
             if zero_sum and kind == "welford" and i == 0:
                 s = sum(list(upd.values())[:-1])
                 upd[ks[-1]] = -s
+            comp.update({"zz": F(1), rng.choice(KEYS): F(2)})    # a second live tracker built from the same base
             pre, pren = mv_proj(m), int(m.N)
             m.update(dict(upd))
             got = m.get()
